@@ -1521,6 +1521,174 @@ fn corpus(out: &mut Out, pki: &Pki) {
     }
 }
 
+// ================================================================== session resumption across servers
+/// custom connector that does TLS itself with ONE shared rustls ClientConfig (one client session
+/// cache for all servers; a tonic Endpoint would build a ClientConfig per endpoint)
+struct SharedTlsConnector {
+    tx: mpsc::UnboundedSender<TcpPipe>,
+    cfg: Arc<rustls::ClientConfig>,
+    kinds: Arc<Mutex<Vec<String>>>,
+}
+impl tower_service::Service<http::Uri> for SharedTlsConnector {
+    type Response = TokioIo<tokio_rustls::client::TlsStream<DuplexStream>>;
+    type Error = io::Error;
+    type Future = Pin<Box<dyn Future<Output = Result<Self::Response, io::Error>> + Send>>;
+    fn poll_ready(&mut self, _: &mut Context<'_>) -> Poll<Result<(), io::Error>> {
+        Poll::Ready(Ok(()))
+    }
+    fn call(&mut self, _uri: http::Uri) -> Self::Future {
+        let (a, b) = tokio::io::duplex(1 << 16);
+        let _ = self.tx.send(TcpPipe(b));
+        let c = tokio_rustls::TlsConnector::from(self.cfg.clone());
+        let kinds = self.kinds.clone();
+        Box::pin(async move {
+            let s = c.connect(ServerName::try_from("example.test").unwrap(), a).await?;
+            kinds.lock().unwrap().push(format!("{:?}", s.get_ref().1.handshake_kind()));
+            Ok(TokioIo::new(s))
+        })
+    }
+}
+
+/// server kinds of the resumption corpus: 0 no client auth, 1 required CA2, 2 optional CA2,
+/// 3 required CA1 ("the other CA")
+fn resumption_server(pki: &Pki, k: u8) -> (ServerSpec, &'static str) {
+    let cert = pki.srv_example.clone();
+    match k {
+        0 => (ServerSpec::Tonic { cert, client_ca: None, optional: false }, "(mk_server_cfg (Some SrvExample) None false)"),
+        1 => (ServerSpec::Tonic { cert, client_ca: Some(pki.ca2.clone()), optional: false }, "(mk_server_cfg (Some SrvExample) (Some CA2) false)"),
+        2 => (ServerSpec::Tonic { cert, client_ca: Some(pki.ca2.clone()), optional: true }, "(mk_server_cfg (Some SrvExample) (Some CA2) true)"),
+        _ => (ServerSpec::Tonic { cert, client_ca: Some(pki.ca1.clone()), optional: false }, "(mk_server_cfg (Some SrvExample) (Some CA1) false)"),
+    }
+}
+
+/// one process, the servers `servers`, one resumption-capable client (identity 0 none, 1 issued
+/// by CA2, 2 issued by CA1; TLS 1.3 or 1.2 only) visiting them in the order `order`
+fn run_resumption(out: &mut Out, pki: &Pki, servers: &[u8], order: &[usize], ident: u8, tls12: bool) {
+    Native::Ca1.install();
+    let rt = tokio::runtime::Builder::new_current_thread().enable_time().build().unwrap();
+    let visits: Vec<(bool, bool, Option<Vec<Vec<u8>>>, usize, String)> = rt.block_on(async {
+        let mut txs = vec![];
+        let mut shareds = vec![];
+        for k in servers {
+            let (tx, rx) = mpsc::unbounded_channel::<TcpPipe>();
+            let sh = Arc::new(Shared::default());
+            spawn_server(resumption_server(pki, *k).0, rx, Svc(sh.clone()));
+            txs.push(tx);
+            shareds.push(sh);
+        }
+        let mut roots = rustls::RootCertStore::empty();
+        roots.add_parsable_certificates(pem_certs(&pki.ca1));
+        let b = rustls::ClientConfig::builder_with_provider(ring());
+        let b = if tls12 { b.with_protocol_versions(&[&rustls::version::TLS12]).unwrap() } else { b.with_safe_default_protocol_versions().unwrap() };
+        let b = b.with_root_certificates(roots);
+        let mut cfg = match ident {
+            1 => b.with_client_auth_cert(pem_certs(&pki.cli_ca2.0), PrivateKeyDer::from_pem_slice(&pki.cli_ca2.1).unwrap()).unwrap(),
+            2 => b.with_client_auth_cert(pem_certs(&pki.cli_ca1.0), PrivateKeyDer::from_pem_slice(&pki.cli_ca1.1).unwrap()).unwrap(),
+            _ => b.with_no_client_auth(),
+        };
+        cfg.alpn_protocols = vec![b"h2".to_vec()];
+        let cfg = Arc::new(cfg); // default: in-memory session cache, TLS 1.2 session ids and tickets
+        let kinds = Arc::new(Mutex::new(Vec::new()));
+        let mut res = vec![];
+        for &i in order {
+            let before = shareds[i].seen.lock().unwrap().len();
+            let kinds_before = kinds.lock().unwrap().len();
+            let conn = SharedTlsConnector { tx: txs[i].clone(), cfg: cfg.clone(), kinds: kinds.clone() };
+            let mut rpc_ok = false;
+            let mut hung = false;
+            let run = async {
+                if let Ok(ch) = Endpoint::from_static("http://example.test").connect_with_connector(conn).await {
+                    let mut g = tonic::client::Grpc::new(ch);
+                    if g.ready().await.is_ok() {
+                        let r: Result<Response<Vec<u8>>, Status> =
+                            g.unary(Request::new(vec![1u8, 2, 3]), http::uri::PathAndQuery::from_static("/t.T/Call"), RawCodec).await;
+                        rpc_ok = match r { Ok(resp) => resp.into_inner() == vec![3u8, 2, 1], Err(_) => false };
+                    }
+                }
+            };
+            if tokio::time::timeout(Duration::from_secs(20), run).await.is_err() {
+                hung = true;
+            }
+            for _ in 0..20 {
+                tokio::task::yield_now().await;
+            }
+            let seen = shareds[i].seen.lock().unwrap().clone();
+            let new: Vec<Seen> = seen[before..].to_vec();
+            let kind = kinds.lock().unwrap()[kinds_before..].first().cloned().unwrap_or_else(|| "handshake failed".to_string());
+            res.push((rpc_ok && !hung, !new.is_empty(), new.first().and_then(|s| s.request_peer_certs.clone()), new.len(), if hung { "hang".to_string() } else { kind }));
+        }
+        res
+    });
+    drop(rt);
+    // oracle, per visit, independent of what was visited before
+    let own: Option<&Vec<u8>> = match ident { 1 => Some(&pki.cli_ca2_der), 2 => Some(&pki.cli_ca1_der), _ => None };
+    let mut oracle = None;
+    for (n, &i) in order.iter().enumerate() {
+        let k = servers[i];
+        let (rpc_ok, ran, certs, runs, kind) = &visits[n];
+        let allowed = match k { 0 => true, 1 => ident == 1, 2 => ident == 1 || ident == 0, _ => ident == 2 };
+        let name = ["no client auth", "client CA2 required", "client CA2 optional", "client CA1 required"][k as usize];
+        if kind == "hang" {
+            oracle = Some(format!("visit {} ({}) hung", n, name));
+        } else if *ran && !allowed {
+            oracle = Some(format!(
+                "visit {} reached a handler on the server with '{}' although this client ({}) did not present a certificate issued by that CA on this connection (handshake: {}, servers visited before: {:?})",
+                n, name, ["no identity", "identity from CA2", "identity from CA1"][ident as usize], kind, order[..n].iter().map(|j| servers[*j]).collect::<Vec<_>>()));
+        } else if *ran {
+            let expect: Option<&Vec<u8>> = if k == 0 { None } else { own };
+            let got = certs.as_ref().and_then(|v| if v.len() == 1 { Some(&v[0]) } else { None });
+            if certs.is_some() != expect.is_some() || got != expect {
+                oracle = Some(format!("visit {} ({}): the handler saw peer certificates that are not the ones this client presents to this server (handshake: {})", n, name, kind));
+            }
+        }
+        if rpc_ok != ran || *runs > 1 {
+            oracle = oracle.or(Some(format!("visit {}: rpc_ok={} handler runs={}", n, rpc_ok, runs)));
+        }
+        out.hist("resumption.handshake_kind", format!("{}{}", if tls12 { "tls1.2 " } else { "tls1.3 " }, kind));
+    }
+    let obs = Tr::L(visits.iter().map(|(_, ran, certs, _, _)| Tr::L(vec![Tr::bool(*ran), if *ran { certs_tr(pki, certs) } else { Tr::L(vec![]) }])).collect());
+    let cfgs_coq = coq_list(servers, |k| resumption_server(pki, *k).1.to_string());
+    let ident_coq = ["None", "(Some CliCA2)", "(Some CliCA1)"][ident as usize];
+    out.push(Case {
+        kind: "corpus.resumption".into(),
+        input: json!({"servers": servers, "order": order, "client_identity": ident, "client_tls12_only": tls12,
+                      "handshakes": visits.iter().map(|v| v.4.clone()).collect::<Vec<_>>()}),
+        model: format!("obs_resumption {} {} {}", ident_coq, cfgs_coq, coq_list(order, |i| format!("{}%nat", i))),
+        impl_obs: obs,
+        oracle,
+        nontrivial: true,
+    });
+}
+
+fn corpus_resumption(out: &mut Out, pki: &Pki) {
+    for tls12 in [false, true] {
+        for ident in 0..3u8 {
+            // two servers, every ordered pair, also there-and-back; the same server twice
+            for a in 0..4u8 {
+                run_resumption(out, pki, &[a], &[0, 0], ident, tls12);
+                for b in 0..4u8 {
+                    if a != b {
+                        run_resumption(out, pki, &[a, b], &[0, 1], ident, tls12);
+                        run_resumption(out, pki, &[a, b], &[0, 1, 0, 1], ident, tls12);
+                    }
+                }
+            }
+            // three servers in every order
+            for a in 0..4u8 {
+                for b in 0..4u8 {
+                    for c in 0..4u8 {
+                        if a != b && b != c && a != c {
+                            run_resumption(out, pki, &[a, b, c], &[0, 1, 2], ident, tls12);
+                        }
+                    }
+                }
+            }
+            // all four, open server first and last
+            run_resumption(out, pki, &[0, 1, 2, 3], &[0, 1, 2, 3, 0, 3, 2, 1], ident, tls12);
+        }
+    }
+}
+
 /// a bare rustls client (not tonic) against tonic's TLS server: which protocol is selected.
 /// None = handshake failed, Some(p) = completed with ALPN p
 fn raw_client_alpn(pki: &Pki, offer: &[&[u8]]) -> Option<Option<Vec<u8>>> {
@@ -1569,6 +1737,7 @@ fn main() {
     }
 
     corpus(&mut out, &pki);
+    corpus_resumption(&mut out, &pki);
     // hand-picked cells first: the served corner and each single deviation from it
     let base = Cell { roots: 0, dom: 2, host: 0, scert: 0, alpn: 0, assume: 0, cauth: 2, ident: 1 };
     let mut picked = vec![base];
@@ -1615,7 +1784,7 @@ fn main() {
     }
     out.finish(
         IMPORTS,
-        "cell: one real rustls handshake + unary call per cell of client roots{right,other,none} x domain{cfg example.test, cfg other.test, from URI} x URI host{example.test,other.test} x server cert SAN{example.test,other.test} x server ALPN{h2 (tonic's acceptor), none, http/1.1 (rustls acceptor configured like tonic's with the ALPN list replaced)} x assume_http2 x client-auth{none, none+optional flag, required, optional} x identity{none, client CA, other CA}; thorough = all 2592 cells, quick = pairwise-covering set + seeded sample (>= 864 cells); cell.origin: every run cell with right roots and the name taken from the URI again with Endpoint::origin naming the other host (before or after tls_config), same model verdict required; corpus.origin: origin{none, same, other, http other, both} x order x domain{unset,example,other} x URI host x server SAN; cell.stub_h2: every ALPN-h2 cell again on the rustls stub with ALPN h2, oracle = same observable as tonic's acceptor; corpus: scheme x tls config x plaintext/TLS server, Endpoint::new x SSL_CERT_FILE, root store composition, native/webpki root flags x SSL_CERT_FILE{CA1,CA2,empty} (build has both root features), Server builder calls (16 setters, layer before/after, all) around tls_config x {http client, https without identity, other-CA identity, valid identity}, PEM without certificates, invalid domain, connect-info type, acceptor without identity, server ALPN against bare rustls clients, hand-picked cells on a TLS 1.2-only listener. Distinct = distinct (kind, model expression).",
+        "cell: one real rustls handshake + unary call per cell of client roots{right,other,none} x domain{cfg example.test, cfg other.test, from URI} x URI host{example.test,other.test} x server cert SAN{example.test,other.test} x server ALPN{h2 (tonic's acceptor), none, http/1.1 (rustls acceptor configured like tonic's with the ALPN list replaced)} x assume_http2 x client-auth{none, none+optional flag, required, optional} x identity{none, client CA, other CA}; thorough = all 2592 cells, quick = pairwise-covering set + seeded sample (>= 864 cells); cell.origin: every run cell with right roots and the name taken from the URI again with Endpoint::origin naming the other host (before or after tls_config), same model verdict required; corpus.resumption: 2-4 tonic TLS servers {no client auth, CA2 required, CA2 optional, CA1 required} in one process, one shared rustls ClientConfig (session cache; TLS 1.3 tickets / TLS 1.2 session ids) x identity{none, CA2, CA1}, visited in every order of pairs (incl. back and forth, same server twice) and triples and one 8-visit tour; oracle per visit independent of history; corpus.origin: origin{none, same, other, http other, both} x order x domain{unset,example,other} x URI host x server SAN; cell.stub_h2: every ALPN-h2 cell again on the rustls stub with ALPN h2, oracle = same observable as tonic's acceptor; corpus: scheme x tls config x plaintext/TLS server, Endpoint::new x SSL_CERT_FILE, root store composition, native/webpki root flags x SSL_CERT_FILE{CA1,CA2,empty} (build has both root features), Server builder calls (16 setters, layer before/after, all) around tls_config x {http client, https without identity, other-CA identity, valid identity}, PEM without certificates, invalid domain, connect-info type, acceptor without identity, server ALPN against bare rustls clients, hand-picked cells on a TLS 1.2-only listener. Distinct = distinct (kind, model expression).",
         json!({"matrix_cells_total": total, "matrix_cells_run": n, "exhaustive_matrix": a.thorough,
                "cells_on_tonic_acceptor": cells.iter().filter(|c| c.alpn == 0).count(), "stub_cross_validated_cells": n_stub,
                "distinct_cell_observables": distinct.len()}),
